@@ -15,6 +15,7 @@ import (
 	"testing"
 
 	"github.com/joeqian10/neo-gogogo/helper"
+	"github.com/ontio/ontology-crypto/keypair"
 	pcommon "github.com/polynetwork/poly/common"
 	"github.com/polynetwork/poly/native/service/header_sync/neo"
 	"github.com/polynetwork/poly/native/service/header_sync/ont"
@@ -68,6 +69,11 @@ type ontCase struct {
 	via      string // sync | import
 	shuffle  bool
 	extraSig int // junk signatures appended
+	// unequal list lengths (the two lists have independent length prefixes on the wire)
+	reshape  bool
+	keepKeys int      // leading bookkeepers kept (-1 all)
+	keepSigs int      // leading signatures kept (-1 all)
+	pad      []string // signatures appended: garbage | repeat | foreign | empty
 }
 
 // submit builds and submits one message; returns whether poly accepted it, the independent count
@@ -88,6 +94,9 @@ func (w *ontWorld) submit(c ontCase) (accepted bool, distinct int, listed int, r
 	for i := 0; i < c.extraSig; i++ {
 		sigs = append(sigs, pk.NewKey(w.rng).Sign(hash[:]))
 	}
+	if c.reshape {
+		keys, sigs = ontsynth.Reshape(w.rng, hash[:], keys, sigs, c.keepKeys, c.keepSigs, c.pad)
+	}
 	msg.SigData = sigs
 	raw := ontsynth.RawMsg(msg, keys)
 	var rec *nat.CallRecord
@@ -106,7 +115,9 @@ func (w *ontWorld) submit(c ontCase) (accepted bool, distinct int, listed int, r
 	bk := []string{}
 	for _, e := range es {
 		kn = append(kn, e.Kind.String())
-		bk = append(bk, e.Key.PubHex())
+	}
+	for _, k := range keys {
+		bk = append(bk, kit.Hex(keypair.SerializePublicKey(k)))
 	}
 	sg := []string{}
 	for _, s := range sigs {
@@ -114,7 +125,7 @@ func (w *ontWorld) submit(c ontCase) (accepted bool, distinct int, listed int, r
 	}
 	replay = map[string]interface{}{"router": "ont", "entry": c.via, "tracked_set_size": len(w.members), "tracked_set": pk.SortedHex(pubBytes(w.members)),
 		"message_height": w.height, "message_hash": kit.Hex(hash[:]), "entry_kinds": kn, "bookkeepers": bk, "sig_data": sg, "sigs_shuffled": c.shuffle,
-		"junk_sigs_appended": c.extraSig, "raw_message_hex": kit.Hex(raw), "distinct_tracked_valid_signers": distinct, "accepted": accepted, "err": rec.Err}
+		"junk_sigs_appended": c.extraSig, "lists_reshaped": c.reshape, "bookkeepers_kept": c.keepKeys, "signatures_kept": c.keepSigs, "signature_padding": c.pad, "n_bookkeepers": len(keys), "n_signatures": len(sigs), "raw_message_hex": kit.Hex(raw), "distinct_tracked_valid_signers": distinct, "accepted": accepted, "err": rec.Err}
 	return accepted, distinct, len(keys), replay, rec.Err
 }
 
@@ -136,7 +147,13 @@ func rep(k ontsynth.EntryKind, n int) []ontsynth.EntryKind {
 	return out
 }
 
-func violationKeyOnt(kinds []ontsynth.EntryKind) string {
+func violationKeyOnt(kinds []ontsynth.EntryKind, nKeys, nSigs int) string {
+	if nSigs < nKeys {
+		return "ont:crosschainmsg-unsigned-bookkeeper-counted"
+	}
+	if nSigs > nKeys {
+		return "ont:crosschainmsg-surplus-signature-counted"
+	}
 	has := map[ontsynth.EntryKind]bool{}
 	for _, k := range kinds {
 		has[k] = true
@@ -205,7 +222,7 @@ func ontRound(t *testing.T, r *kit.Run, n int, cases int, thresholds map[int]int
 	for i := 0; i < cases; i++ {
 		var c ontCase
 		shape := ""
-		switch rng.Intn(7) {
+		switch rng.Intn(9) {
 		case 0:
 			shape = "subset"
 			k := around(T)
@@ -259,8 +276,48 @@ func ontRound(t *testing.T, r *kit.Run, n int, cases int, thresholds map[int]int
 			c.kinds = rep(ontsynth.Valid, k)
 			c.shuffle = rng.Intn(2) == 0
 			c.extraSig = rng.Intn(2)
+		case 7:
+			// more bookkeepers listed than signatures carried: enough genuine members are LISTED,
+			// but only 0 / 1 / T-1 of them signed
+			shape = "fewer-signatures-than-bookkeepers"
+			k := T + rng.Intn(n-T+1)
+			c.kinds = rep(ontsynth.Valid, k)
+			c.reshape, c.keepKeys = true, -1
+			c.keepSigs = []int{0, 1, T - 1}[rng.Intn(3)]
+			if c.keepSigs < 0 {
+				c.keepSigs = 0
+			}
+			if c.keepSigs >= k {
+				c.keepSigs = k - 1
+			}
+			if rng.Intn(3) == 0 { // and some padding that still leaves the list shorter
+				for j := rng.Intn(k - c.keepSigs); j > 0 && c.keepSigs+len(c.pad) < k-1; j-- {
+					c.pad = append(c.pad, ontsynth.PadKinds[rng.Intn(len(ontsynth.PadKinds))])
+				}
+			}
+		case 8:
+			// more signatures carried than bookkeepers listed: fewer than T genuine signers, the
+			// signature list padded to a quorum-sized length
+			shape = "more-signatures-than-bookkeepers"
+			k := []int{1, T - 1, 0}[rng.Intn(3)]
+			if k < 0 {
+				k = 0
+			}
+			c.kinds = rep(ontsynth.Valid, k)
+			c.reshape, c.keepKeys, c.keepSigs = true, -1, -1
+			total := []int{T, T + 1, n, n + 2}[rng.Intn(4)]
+			for len(c.pad) < total-k || len(c.pad) == 0 {
+				c.pad = append(c.pad, ontsynth.PadKinds[rng.Intn(len(ontsynth.PadKinds))])
+			}
 		case 6:
 			shape = "random"
+			if rng.Intn(3) == 0 {
+				c.reshape = true
+				c.keepKeys, c.keepSigs = rng.Intn(n+2)-1, rng.Intn(n+2)-1
+				for j := rng.Intn(4); j > 0; j-- {
+					c.pad = append(c.pad, ontsynth.PadKinds[rng.Intn(len(ontsynth.PadKinds))])
+				}
+			}
 			l := rng.Intn(n + 4)
 			for j := 0; j < l; j++ {
 				c.kinds = append(c.kinds, ontsynth.EntryKind(rng.Intn(int(ontsynth.NKinds))))
@@ -272,13 +329,13 @@ func ontRound(t *testing.T, r *kit.Run, n int, cases int, thresholds map[int]int
 		}
 		acc, distinct, listed, replay, errStr := w.submit(c)
 		r.Eval(1)
-		r.Distinct("ont", n, shape, fmt.Sprint(c.kinds), c.via, c.shuffle, c.extraSig, acc)
+		r.Distinct("ont", n, shape, fmt.Sprint(c.kinds), c.via, c.shuffle, c.extraSig, c.reshape, c.keepKeys, c.keepSigs, fmt.Sprint(c.pad), acc)
 		r.Count("ont_shape_"+shape, 1)
 		r.Count("ont_via_"+c.via, 1)
 		if acc {
 			r.Count("ont_accepted", 1)
 			if distinct < T {
-				viol(r, violationKeyOnt(c.kinds),
+				viol(r, violationKeyOnt(c.kinds, replay["n_bookkeepers"].(int), replay["n_signatures"].(int)),
 					fmt.Sprintf("ont message accepted via %s with %d listed bookkeeper(s) but only %d distinct tracked valid signer(s); tracked set N=%d needs %d (honest all-distinct threshold)", c.via, listed, distinct, n, T), replay)
 			} else if shape == "honest-quorum-variants" && r.Get("ont_sampled") == 0 {
 				r.Count("ont_sampled", 1)
@@ -334,7 +391,28 @@ func neoRound(t *testing.T, r *kit.Run, n, m, cases int) {
 		who := asc(n)
 		shape := ""
 		script := set
-		switch rng.Intn(8) {
+		switch rng.Intn(10) {
+		case 8:
+			// fewer than m genuine signatures, the invocation script padded to m (or more) slots
+			shape = "below-padded-with-garbage"
+			for j := 0; j < m-1; j++ {
+				kinds = append(kinds, neosynth.Valid)
+			}
+			for len(kinds) < m+rng.Intn(2) {
+				kinds = append(kinds, neosynth.Garbage)
+			}
+			if rng.Intn(2) == 0 {
+				rng.Shuffle(len(kinds), func(a, b int) { kinds[a], kinds[b] = kinds[b], kinds[a] })
+			}
+		case 9:
+			// more signature slots than the script has keys
+			shape = "more-slots-than-keys"
+			for j := 0; j < m-1; j++ {
+				kinds = append(kinds, neosynth.Valid)
+			}
+			for len(kinds) < n+1+rng.Intn(2) {
+				kinds = append(kinds, []neosynth.SlotKind{neosynth.Garbage, neosynth.DupSameSig, neosynth.Foreign}[rng.Intn(3)])
+			}
 		case 0:
 			shape = "honest"
 			k := m + rng.Intn(2)
@@ -467,7 +545,7 @@ func neoRound(t *testing.T, r *kit.Run, n, m, cases int) {
 func TestC24(t *testing.T) {
 	r := kit.Start(t, "C24", "exploration")
 	defer r.Finish()
-	r.Rule("ont: for every tracked-set size N: calibration (honest all-distinct k=0..N) then bookkeeper lists of shapes {subset around threshold, superset with foreign keys, one key repeated, few distinct + repeats, invalid/stolen signatures, honest quorum with shuffled/extra signatures, random kind vectors} through syncCrossChainMsg and ImportOuterTransfer; neo: for every (n,m): witnesses of shapes {honest, below, one key repeated, below+repeats, below+foreign/bad, other committee's script, same keys with 1-of-n script, random}; distinct = (router, N or (n,m), shape, kind vector, entry, outcome)")
+	r.Rule("ont: for every tracked-set size N: calibration (honest all-distinct k=0..N) then bookkeeper lists of shapes {subset around threshold, superset with foreign keys, one key repeated, few distinct + repeats, invalid/stolen signatures, honest quorum with shuffled/extra signatures, bookkeeper list longer than the signature list (0/1/T-1 signatures), signature list longer than the bookkeeper list (garbage/repeated/foreign/empty padding), random kind vectors with random truncation} through syncCrossChainMsg and ImportOuterTransfer; neo: for every (n,m): witnesses of shapes {honest, below, one key repeated, below+repeats, below+foreign/bad, other committee's script, same keys with 1-of-n script, random}; distinct = (router, N or (n,m), shape, kind vector, entry, outcome)")
 	r.Assume("ont: the property does not fix 'the required number'; it is taken as the smallest k for which the router accepts an honest message signed by k distinct tracked members (calibrated per N on the running code; documented formula ceil(N/3) is recorded for comparison) and must be >= 1")
 	r.Assume("neo: the required number is the m of the tracked m-of-n consensus script; neo3/neo3legacy: the k for which an honest k-of-n witness of k distinct state validators is accepted (calibrated per n; documented n-(n-1)/3)")
 	r.Assume("signature validity is judged with ontology-crypto / neo-gogogo verification of each listed signature against each tracked member key")
@@ -516,6 +594,8 @@ func TestC24(t *testing.T) {
 	r.Require("ont_refused_below_threshold", maxN*5)
 	r.Require("ont_shape_one-key-repeated", maxN*3)
 	r.Require("ont_via_import", maxN*5)
+	r.Require("ont_shape_fewer-signatures-than-bookkeepers", maxN*4)
+	r.Require("ont_shape_more-signatures-than-bookkeepers", maxN*4)
 	r.Require("neo_accepted", 20)
 	r.Require("neo_refused", 50)
 	r.Require("neo_shape_one-key-repeated", 10)
